@@ -1411,10 +1411,10 @@ def translator_leg(ctx: Ctx) -> bool:
 def rejected_lifecycle(ctx: Ctx):
     """Log the detector classes / readout loops of the regenerated tables that the lifecycle check rejects."""
     text = ("From Coq Require Import List.\nFrom PyxelV Require Import Model.FluxDet.\n"
-            "From PyxelGen Require Import Gen_C17.\nEval vm_compute in bad_classes det_table.\n"
+            "From PyxelGen Require Import Gen_C17.\nImport ListNotations.\nEval vm_compute in bad_classes det_table.\n"
             "Eval vm_compute in bad_loops det_table loop_table.\n")
     ctext = ("From Coq Require Import List.\nFrom PyxelV Require Import Model.FluxExpr.\n"
-             "From PyxelGen Require Import Gen_C17.\nEval vm_compute in bad_conv_rows conv_table.\n")
+             "From PyxelGen Require Import Gen_C17.\nImport ListNotations.\nEval vm_compute in bad_conv_rows conv_table.\n")
     okc, evc, _ = core.coq_eval(ctx, "bad_conv", ctext)
     st = TABLE["st"]
     if okc and evc and st is not None:
@@ -1440,8 +1440,9 @@ def rejected_lifecycle(ctx: Ctx):
 def rejected_rows(ctx: Ctx):
     """The rows of the regenerated table that are neither linear in the time step nor random (evaluated in Coq):
     [(model kind, option conditions)] for the failing-input search."""
-    text = ("From Coq Require Import List.\nFrom PyxelV Require Import Model.FluxExpr.\n"
-            "From PyxelGen Require Import Gen_C17.\nEval vm_compute in bad_rows rate_table.\n")
+    text = ("From Coq Require Import List.\nFrom PyxelV Require Import Model.FluxExpr.\n"      # (without the list
+            "From PyxelGen Require Import Gen_C17.\nImport ListNotations.\n"                    # notations an empty
+            "Eval vm_compute in bad_rows rate_table.\n")                                        # list prints as `nil`)
     ok, evals, se = core.coq_eval(ctx, "bad_rows", text)
     st = TABLE["st"]
     if not ok or not evals or st is None:
